@@ -632,14 +632,27 @@ class ContractSet:
                     tgt = c.expr(lv)
                     I.assign(tgt, v, sfr)
                 tainted = set()
+                names = set(c.post_lets)
+
+                def uses(src, pool):
+                    return any(isinstance(x, ast.Name) and x.id in pool for x in ast.walk(c.expr(src)))
+                # pass 1: clauses that do not depend on post_let values (they may be what makes the lets well defined)
+                for n, src in c.ensures.items():
+                    if "events(" in src or uses(src, names):
+                        continue
+                    t = self.eval_clause(I, c, src, sfr)
+                    P.assume(t.term())
                 for n, src in c.post_lets.items():
-                    if "events(" in src or any(isinstance(x, ast.Name) and x.id in tainted for x in ast.walk(c.expr(src))):
+                    if "events(" in src or uses(src, tainted):
                         tainted.add(n)
                         continue
-                    sfr.locals[n] = I.ev(c.expr(src), sfr)
+                    try:
+                        sfr.locals[n] = I.ev(c.expr(src), sfr)
+                    except PyRaise as e:
+                        raise Unsupported(f"post_let {n} of {c.target} raised {I.hobj(e.exc).cls.name} at a call site")
                 for n, src in c.ensures.items():
-                    if "events(" in src or any(isinstance(x, ast.Name) and x.id in tainted for x in ast.walk(c.expr(src))):
-                        continue        # speaks about the callee's own ghost trace; the caller gets the `emits` instead
+                    if "events(" in src or uses(src, tainted) or not uses(src, names):
+                        continue        # event clauses speak about the callee's own ghost trace; the caller gets the `emits` instead
                     t = self.eval_clause(I, c, src, sfr)
                     P.assume(t.term())
                 for ev_name, src in c.emits.items():
